@@ -189,6 +189,26 @@ func leakAfter(baseline int) *failure {
 }
 
 // ---------------------------------------------------------------------------
+// transport error kinds: what a failed transport returns (on EVERY call from then on).
+//
+//	generic   a plain error
+//	timeout   permanent, Timeout()==true, Temporary()==false (QUIC/KCP idle timeout)
+//	deadline  os.ErrDeadlineExceeded (also Timeout()==true)
+//
+// None of them is retryable: the transport is dead, the relay has to finish.
+var errKinds = []string{"generic", "timeout", "deadline"}
+
+func errOfKind(kind string, generic error) error {
+	switch kind {
+	case "timeout":
+		return vkit.TimeoutForever
+	case "deadline":
+		return os.ErrDeadlineExceeded
+	}
+	return generic
+}
+
+// ---------------------------------------------------------------------------
 // deterministic payload bytes: position dependent, so reordering / duplication shows.
 
 func fill(dst []byte, seed uint64, off int) {
